@@ -206,12 +206,20 @@ func (s *Stream) preprocessFilterCondition(conditionStr string) string {
 // operator: "NOT (x > 5)" compiled as a call of an unknown function NOT and the
 // filter then rejected every row. IS NOT NULL and NOT LIKE / NOT IN forms that
 // the preprocessing above did not consume are left as they are.
+//
+// In SQL NOT binds weaker than a comparison, in expr-lang "not" binds tighter:
+// "NOT v < 2" read as "(not v) < 2" and did not compile. A prefix NOT therefore
+// gets its operand, which ends at the next AND / OR of the same nesting level,
+// put in parentheses: "not (v < 2)".
 func lowerNotOperator(cond string) string {
 	isWordChar := func(c byte) bool {
 		return c == '_' || c == '.' || (c >= '0' && c <= '9') || (c >= 'a' && c <= 'z') || (c >= 'A' && c <= 'Z')
 	}
 	var sb strings.Builder
 	prevWord := ""
+	// prevOperand: the last token ends an operand, so a following NOT belongs to
+	// a binary form (x NOT IN ..., x not contains ...) and is not a prefix NOT
+	prevOperand := false
 	for i := 0; i < len(cond); {
 		c := cond[i]
 		if c == '\'' || c == '"' {
@@ -225,6 +233,7 @@ func lowerNotOperator(cond string) string {
 			}
 			sb.WriteString(cond[i:j])
 			prevWord = ""
+			prevOperand = true
 			i = j
 			continue
 		}
@@ -232,6 +241,7 @@ func lowerNotOperator(cond string) string {
 			sb.WriteByte(c)
 			if c != ' ' && c != '\t' && c != '\n' && c != '\r' {
 				prevWord = ""
+				prevOperand = c == ')' || c == ']'
 			}
 			i++
 			continue
@@ -241,17 +251,99 @@ func lowerNotOperator(cond string) string {
 			j++
 		}
 		word := cond[i:j]
-		if strings.EqualFold(word, "NOT") && word != "not" && !strings.EqualFold(prevWord, "IS") {
+		if strings.EqualFold(word, "NOT") && !strings.EqualFold(prevWord, "IS") {
 			next := strings.ToUpper(strings.TrimLeft(cond[j:], " \t\r\n"))
 			if !strings.HasPrefix(next, "LIKE") && !strings.HasPrefix(next, "NULL") {
 				word = "not"
+				if !prevOperand {
+					end := notOperandEnd(cond, j, isWordChar)
+					operand := strings.TrimSpace(cond[j:end])
+					if operand != "" && !isParenthesized(operand) {
+						sb.WriteString("not (" + lowerNotOperator(operand) + ")")
+						prevWord = ""
+						prevOperand = true
+						i = j + len(strings.TrimRight(cond[j:end], " \t\r\n"))
+						continue
+					}
+				}
 			}
 		}
 		sb.WriteString(word)
 		prevWord = word
+		prevOperand = !strings.EqualFold(word, "and") && !strings.EqualFold(word, "or") &&
+			!strings.EqualFold(word, "not") && !strings.EqualFold(word, "in")
 		i = j
 	}
 	return sb.String()
+}
+
+// notOperandEnd returns the index in cond at which the operand of a prefix NOT
+// that starts at from ends: the next && / || / AND / OR, comma, ? or closing
+// bracket of the operand's own nesting level, or the end of the text.
+func notOperandEnd(cond string, from int, isWordChar func(byte) bool) int {
+	depth := 0
+	for i := from; i < len(cond); {
+		c := cond[i]
+		switch {
+		case c == '\'' || c == '"':
+			i++
+			for i < len(cond) && cond[i] != c {
+				i++
+			}
+			i++
+		case c == '(' || c == '[':
+			depth++
+			i++
+		case c == ')' || c == ']':
+			if depth == 0 {
+				return i
+			}
+			depth--
+			i++
+		case depth == 0 && (c == ',' || c == '?'):
+			return i
+		case depth == 0 && (c == '&' || c == '|') && i+1 < len(cond) && cond[i+1] == c:
+			return i
+		case isWordChar(c):
+			j := i
+			for j < len(cond) && isWordChar(cond[j]) {
+				j++
+			}
+			if depth == 0 && (strings.EqualFold(cond[i:j], "and") || strings.EqualFold(cond[i:j], "or")) {
+				return i
+			}
+			i = j
+		default:
+			i++
+		}
+	}
+	return len(cond)
+}
+
+// isParenthesized reports whether text is one parenthesised group: "(a < 2)",
+// but not "(a) < (b)".
+func isParenthesized(text string) bool {
+	if !strings.HasPrefix(text, "(") {
+		return false
+	}
+	depth := 0
+	for i := 0; i < len(text); i++ {
+		switch c := text[i]; c {
+		case '\'', '"':
+			i++
+			for i < len(text) && text[i] != c {
+				i++
+			}
+		case '(':
+			depth++
+		case ')':
+			depth--
+			if depth == 0 {
+				return i == len(text)-1
+			}
+		}
+	}
+	return false
 }
 
 // convertToAggregationFields converts old format configuration to new AggregationField format
